@@ -176,7 +176,11 @@ func (e *rcEnv) setContext(ctx context.Context) {
 	vsched.CtrAdd(rcCtxChange, 1)
 	vsched.CtrSet(rcCtxSet, b2i(ctx != nil))
 	label("SetContext")
-	e.rc.SetContext(ctx)
+	if ctx == nil && vsched.Ctr(rcCtxChange)%2 == 0 {
+		e.rc.ClearContext() // (the two spellings of "no context" alternate)
+	} else {
+		e.rc.SetContext(ctx)
+	}
 	label("")
 	vsched.CtrAdd(rcCtxDone, 1)
 }
